@@ -117,3 +117,139 @@ Example c05_example :
   let h := hop_complete 10 (c 5000000) (hop_complete 10 (c 3000000) (hop_complete 10 (c 1000000) hop_default)) in
   (h_mean h == 3)%Q /\ (h_m2 h / 2 == 4)%Q.   (* variance 4 ms^2: standard deviation 2 ms for samples 1, 3, 5 ms *)
 Proof. split; vm_compute; reflexivity. Qed.
+
+(* ======================================================================================================================
+   The forward / backward loss classification of a round, and the link from published rounds to the recomputation.
+   Specification vocabulary (Proofs/RoundFold.v), all read off the round, no reference to the updater's state:
+     fwd_lost_at ps t        the round splits as pre ++ st :: post, nothing in pre is a probe farther than t, st is a
+                             probe farther than t, and st and everything after it is Awaited or Skipped;
+     lost_before ps k        some Awaited probe standing before position k is at a forward-lost distance;
+     events_at ps t k        the hop updates (HopHistory.hev) the status at position k causes at hop t;
+     round_events ps t       all of them in round order; rounds_events rs t: over a list of rounds;
+     round_events uses nat_spec None over the round's responding probes for the NAT status events (see C19). *)
+From TV Require Import Proofs.StateProofs Proofs.FlowAttr Proofs.RoundFold.
+
+(* is_forward_loss (skip_while + all) means exactly this *)
+Theorem c05_forward_loss_meaning : forall ps t, is_forward_loss ps t = true <->
+  exists pre st post, ps = pre ++ st :: post /\
+    Forall (fun s => forall x, status_ttl s = Some x -> x <= t) pre /\
+    (exists x, status_ttl st = Some x /\ t < x) /\
+    Forall (fun s => s = Skipped \/ exists p, s = Awaited p) (st :: post).
+Proof. exact is_forward_loss_meaning. Qed.
+
+(* StateUpdater::apply on one round: every hop afterwards is the hop before, updated by exactly the events the round
+   holds for its distance (the sticky flag and the carried checksum are gone from the statement) *)
+Theorem c05_round_is_its_events : forall f r f', fs_apply f r = Ok f' ->
+  fs_max_samples f' = fs_max_samples f /\
+  forall i, nth_error (fs_hops f') i =
+    option_map (fun h => hop_run_from (fs_max_samples f) h (round_events (rr_probes r) (Z.of_nat i + 1)))
+               (nth_error (fs_hops f) i).
+Proof. exact fs_apply_events. Qed.
+
+(* which awaited probe of a round is counted as forward loss, which as backward loss: the first awaited probe (in round
+   order) at a forward-lost distance is the forward loss, every awaited probe after it a backward loss, the others neither *)
+Theorem c05_awaited_classification : forall ps k p, nth_error ps k = Some (Awaited p) ->
+  exists fwd bwd, events_at ps (p_ttl p) k = [HU p false fwd bwd] /\
+    (fwd = true <-> fwd_lost_at ps (p_ttl p) /\ ~ lost_before ps k) /\
+    (bwd = true <-> lost_before ps k).
+Proof. exact awaited_classification. Qed.
+
+(* at most one forward loss per round, and it is not also a backward loss *)
+Theorem c05_forward_loss_unique : forall ps j q bj k p bk,
+  nth_error ps j = Some (Awaited q) -> nth_error ps k = Some (Awaited p) ->
+  events_at ps (p_ttl q) j = [HU q false true bj] -> events_at ps (p_ttl p) k = [HU p false true bk] ->
+  j = k /\ bj = false.
+Proof. exact forward_loss_unique. Qed.
+
+(* the same on the counters of the real loop: over all hops a round adds exactly one forward loss when it holds an
+   awaited probe at a forward-lost distance, and none otherwise *)
+Theorem c05_one_forward_loss_per_round : forall f r f', length (fs_hops f) = MAX_TTL_N -> fs_apply f r = Ok f' ->
+  length (fs_hops f') = MAX_TTL_N /\
+  zsum (map h_fwd_lost (fs_hops f')) = zsum (map h_fwd_lost (fs_hops f)) +
+    (if existsb (awaited_fwd (rr_probes r)) (rr_probes r) then 1 else 0) /\
+  (existsb (awaited_fwd (rr_probes r)) (rr_probes r) = true <->
+   exists k p, nth_error (rr_probes r) k = Some (Awaited p) /\ fwd_lost_at (rr_probes r) (p_ttl p)).
+Proof.
+  intros f r f' Hl H. destruct (fs_apply_fwd_total f r f' Hl H) as [L T].
+  split; [exact L|]. split; [exact T|apply existsb_awaited_fwd_iff].
+Qed.
+
+(* failed probes are never counted as loss: in the specification ... *)
+Theorem c05_failed_is_not_loss : forall ps k p, nth_error ps k = Some (Failed p) ->
+  events_at ps (p_ttl p) k = [HU p true false false].
+Proof. exact failed_events. Qed.
+
+(* ... and in the code: a Failed step leaves every loss counter and the sticky flag alone *)
+Theorem c05_failed_step_not_loss : forall all u p u', update_for_probe all u (Failed p) = Ok u' ->
+  u_fwd_loss u' = u_fwd_loss u /\
+  forall i h, nth_error (fs_hops (u_fs u)) i = Some h ->
+    exists h', nth_error (fs_hops (u_fs u')) i = Some h' /\
+      h_fwd_lost h' = h_fwd_lost h /\ h_bwd_lost h' = h_bwd_lost h /\
+      h_failed h' = (if p_ttl p =? Z.of_nat i + 1 then h_failed h + 1 else h_failed h).
+Proof. exact failed_step_not_loss. Qed.
+
+(* rounds in ascending distance order without NotSent entries (what the strategy publishes): forward loss at an awaited
+   probe = everything after it is still unanswered and at least one more probe was sent beyond it *)
+Theorem c05_forward_loss_ascending : forall pre p post, ascending (pre ++ Awaited p :: post) -> ~ In NotSent post ->
+  (fwd_lost_at (pre ++ Awaited p :: post) (p_ttl p) <-> Forall unanswered post /\ exists q, In (Awaited q) post).
+Proof. exact fwd_lost_ascending. Qed.
+
+(* the whole picture for such a round body ++ tail, tail = its trailing run of unanswered probes: awaited probes inside
+   body count as neither; the first awaited probe of tail is a forward loss exactly when another awaited probe follows;
+   every awaited probe after it is a backward loss *)
+Theorem c05_ascending_round_classification : forall body tail,
+  ascending (body ++ tail) -> ~ In NotSent (body ++ tail) ->
+  Forall unanswered tail -> (forall b s, body = b ++ [s] -> ~ unanswered s) ->
+  (forall k p, nth_error body k = Some (Awaited p) ->
+     events_at (body ++ tail) (p_ttl p) k = [HU p false false false]) /\
+  (forall sk p rest, tail = sk ++ Awaited p :: rest -> existsb is_awaited sk = false ->
+     events_at (body ++ tail) (p_ttl p) (length body + length sk) = [HU p false (existsb is_awaited rest) false] /\
+     (forall j q, nth_error rest j = Some (Awaited q) ->
+        events_at (body ++ tail) (p_ttl q) (length body + length sk + 1 + j) = [HU q false false true])).
+Proof. exact ascending_round_classification. Qed.
+
+(* after ANY sequence of published rounds applied to a fresh flow state, hop i+1 is hop_run of the events those rounds
+   hold for it - so c05_recomputation, c05_laws, c05_statistics and c05_derived speak about the aggregator's hops *)
+Theorem c05_rounds_recomputation : forall ms rs f', fs_run (flow_state_new ms) rs = Ok f' ->
+  fs_max_samples f' = ms /\
+  forall i, (i < MAX_TTL_N)%nat -> nth_error (fs_hops f') i = Some (hop_run ms (rounds_events rs (Z.of_nat i + 1))).
+Proof. exact fs_run_new_is_hop_run. Qed.
+
+(* ... and the same through State::update_from_round for every flow: the default flow 0 aggregates all rounds, a
+   registered flow the rounds attributed to it (FlowAttr.flow_rounds) *)
+Theorem c05_state_recomputation : forall ms mf rs s' id, st_run (state_new ms mf) rs = Ok s' ->
+  fs_max_samples (flow_or_new s' id) = ms /\
+  forall i, (i < MAX_TTL_N)%nat ->
+    nth_error (fs_hops (flow_or_new s' id)) i =
+    Some (hop_run ms (rounds_events (flow_rounds id (state_new ms mf) rs) (Z.of_nat i + 1))).
+Proof. exact st_run_hops. Qed.
+
+(* non-vacuity: target silent, hops 3..5 awaited after two answers - hop 3 forward loss, hops 4 and 5 backward loss;
+   an answer at hop 6 instead makes none of them a loss; a failed probe is only counted as failed *)
+Example c05_round_loss_example :
+  let pr t := {| p_sequence := 33000 + t; p_identifier := 0; p_src_port := 0; p_dest_port := 0; p_ttl := t; p_round := 0; p_sent := 0; p_flags := 0 |} in
+  let c t := Complete {| c_probe := pr t; c_host := [10;0;0;t]; c_received := 1000; c_icmp := ITimeExceeded 0; c_tos := None; c_expected := None; c_actual := None; c_exts := None |} in
+  let rd ps := {| rr_probes := ps; rr_largest_ttl := 6; rr_reason := RoundTimeLimitExceeded |} in
+  let loss f := match f with Ok f => map (fun h => (h_fwd_lost h, h_bwd_lost h, h_failed h)) (firstn 6 (fs_hops f)) | _ => [] end in
+  let silent := [c 1; c 2; Awaited (pr 3); Awaited (pr 4); Awaited (pr 5)] in
+  let answered := [c 1; Failed (pr 2); Awaited (pr 3); Awaited (pr 4); Awaited (pr 5); c 6] in
+  loss (fs_apply (flow_state_new 10) (rd silent)) = [(0,0,0); (0,0,0); (1,0,0); (0,1,0); (0,1,0); (0,0,0)] /\
+  loss (fs_apply (flow_state_new 10) (rd answered)) = [(0,0,0); (0,0,1); (0,0,0); (0,0,0); (0,0,0); (0,0,0)] /\
+  round_events silent 3 = [HU (pr 3) false true false] /\ round_events silent 5 = [HU (pr 5) false false true] /\
+  ascending silent /\ ascending answered.
+Proof.
+  cbv zeta. split; [vm_compute; reflexivity|]. split; [vm_compute; reflexivity|]. split; [vm_compute; reflexivity|].
+  split; [vm_compute; reflexivity|]. split; unfold ascending; cbn;
+  repeat (apply Sorted.SSorted_cons; [|repeat (apply Forall_cons; [reflexivity|]); apply Forall_nil]); apply Sorted.SSorted_nil.
+Qed.
+
+(* The link to the other half: EVERY round the strategy publishes - every builder-accepted configuration, any number of
+   iterations, any environment behaviour (clock, send outcomes incl. TCP re-issues, deliveries) - lists its probes in
+   strictly ascending distance order and holds no NotSent entry, so c05_forward_loss_ascending and
+   c05_ascending_round_classification describe the loss attribution of every round the aggregator is ever given
+   (Proofs/PublishAscending.v, over the ghost history of Proofs/RoundHistory.v). *)
+From TV Require Core.TracerState Core.Strategy Core.Builder Proofs.StrategyInv Proofs.StrategyProps Proofs.PublishAscending.
+Theorem c05_strategy_rounds_ascending : forall c t0 is, StrategyInv.Accept c ->
+  Forall (fun r => ascending (rr_probes r) /\ ~ In NotSent (rr_probes r))
+         (StrategyProps.pubs (fst (fst (Strategy.run c t0 is)))).
+Proof. exact PublishAscending.strategy_rounds_ascending. Qed.
